@@ -44,15 +44,18 @@ Definition check_case (c : case) : bool :=
 (* Monitor.  The world (queue contents, life states, flags) is followed from the input
    scripts; WHICH task ran is taken from the implementation's trace (InsertStart /
    ActionStart), never from the model's pop.  At each reported execution the task must be
-   pending and allowed to run (source not dead, no abort flag; an action: source alive), and
+   pending and allowed to run (source not dead, on the field, no abort flag; an action: source alive), and
    every pending task that sorts before it (priority, then id) must be one the drain takes
-   silently at that moment: source dead, or flagged, or an action of a unit that is not alive.
+   silently at that moment: source dead, or off the field, or flagged, or an action of a unit that is not alive.
    When a drain returns without an exit, everything still pending must be of that kind.
-   Executions are unique because the task leaves the pending set. *)
+   Executions are unique because the task leaves the pending set.  The side lists are followed
+   from the implementation's TargetDeath events; a Termination is accepted only when a side is
+   empty, and nothing may run once that is so. *)
 Definition lt_task (a b : task) : bool := less a b.
 
 Definition silent (s : sim) (t : task) : bool :=
-  lstate_eqb (life_of s (t_src t)) LDead || has_flag s (t_src t) (t_flags t) ||
+  lstate_eqb (life_of s (t_src t)) LDead || negb (on_field s (t_src t)) ||
+  has_flag s (t_src t) (t_flags t) ||
   match t_body t with BAction u => negb (lstate_eqb (life_of s u) LAlive) | _ => false end.
 
 Fixpoint find_task (p : task -> bool) (l : list task) : option task :=
@@ -68,7 +71,13 @@ Definition take (s : sim) (t : task) : option sim :=
   else None.
 
 Definition runnable (s : sim) (t : task) : bool :=
-  negb (lstate_eqb (life_of s (t_src t)) LDead) && negb (has_flag s (t_src t) (t_flags t)).
+  negb (lstate_eqb (life_of s (t_src t)) LDead) && on_field s (t_src t) &&
+  negb (has_flag s (t_src t) (t_flags t)) &&
+  match exit_reason s with None => true | Some _ => false end.   (* both sides still stand *)
+
+(* a unit announced dead by the implementation has left its side *)
+Definition leave (s : sim) (u : Z) : sim :=
+  with_sides s (filter (fun x => negb (x =? u)) (s_chars s)) (filter (fun x => negb (x =? u)) (s_enemies s)).
 
 Fixpoint mon_trace (s : sim) (ops : list top) (tr : list titem) (n : nat) : bool :=
   match n with
@@ -113,12 +122,15 @@ Fixpoint mon_trace (s : sim) (ops : list top) (tr : list titem) (n : nat) : bool
           end
       | None => false
       end
-  | TDeath _ :: tr' => mon_trace s ops tr' n'
-  | TTermination _ :: TDrained stopped _ :: tr' =>
-      stopped && match tr' with [] => true | _ => false end
+  | TDeath u :: tr' => mon_trace (leave s u) ops tr' n'
+  | TTermination r :: TDrained stopped _ :: tr' =>
+      (* the battle ends only when a side is empty, with the reason that side dictates *)
+      stopped && match exit_reason s with Some r' => r =? r' | None => false end &&
+      match tr' with [] => true | _ => false end
   | TDrained stopped e :: tr' =>
       (* the drain returned normally: what is left was taken silently *)
       negb stopped && e && forallb (silent s) (q_pending (s_q s)) &&
+      (match q_pending (s_q s), exit_reason s with _ :: _, Some _ => false | _, _ => true end) &&
       let s1 := with_q s (mkQ [] (q_counter (s_q s))) in
       next_ops s1 ops tr' n'
   | _ => false
@@ -130,6 +142,7 @@ with next_ops (s : sim) (ops : list top) (tr : list titem) (n : nat) : bool :=
   | S n' =>
   match ops with
   | TEff e :: ops' => next_ops (apply_eff s e) ops' tr n'
+  | TLeave u :: ops' => next_ops (leave s u) ops' tr n'
   | TDrain :: ops' => mon_trace s ops' tr n'
   | [] => match tr with [] => true | _ => false end
   end
